@@ -8,6 +8,9 @@ python3 -c "import sys; sys.path.insert(0, '.'); from vlib import build; build.e
 if [ -f stubs/syncdelay.c ]; then
   clang -O2 -shared -fPIC -o stubs/syncdelay.so stubs/syncdelay.c -ldl
 fi
+if [ -f stubs/threadfail.c ]; then
+  clang -O2 -shared -fPIC -o stubs/threadfail.so stubs/threadfail.c -ldl
+fi
 if [ -f stubs/writefault.c ]; then
   clang -O2 -shared -fPIC -o stubs/writefault.so stubs/writefault.c -ldl
 fi
